@@ -10,7 +10,7 @@ from ..harness import Violation
 LEVEL = "exploration"
 RULE = (
     "(a) 'direct': unmatched instance-map pairs (1-3-D, derived predictions) whose labels are renamed injectively into "
-    "the classes {1..5, 250..255, 256..300, 65530..65535, 65536..70000} in the narrowest or a wider unsigned dtype, fed "
+    "the classes {1..5, 250..255, 256..300, 65530..65535, 65536..70000} in the narrowest or a wider unsigned dtype and in C / Fortran / negative-stride / transposed layout, fed "
     "to match_instances of the threshold matcher (with/without many-to-one) and the merge matcher; (b) 'many': 1-D maps "
     "with 1-300 single-voxel reference instances and 0-300 matched / 0-300 unmatched predictions through the semantic "
     "pipeline (the approximator picks the narrowest dtype first), inspected at IntermediateStepsData. Oracle: reference "
